@@ -43,14 +43,14 @@ def gen_scenario(seed, i):
         first["args"] = narrow()
     invs.append(first)
     for _ in range(rng.randint(1, 3)):
-        inv = {"args": narrow() if rng.random() < 0.8 else dict(base), "flags": flags(), "ninja_rc": rng.choice([0, 0, 1, 2, 130])}
+        inv = {"args": narrow() if rng.random() < 0.8 else dict(base), "flags": flags(), "ninja_rc": rng.choice([0, 0, 1, 2, 130, "kill"])}
         r = rng.random()
         if r < 0.1:
             inv["flags"]["generate_only"] = True
         elif r < 0.2:
             inv["no_ninja"] = True
         elif r < 0.3:
-            inv = {"subcommand": "clean", "unused": rng.random() < 0.5, "flags": {"verbose": rng.choice([0, 1])}, "ninja_rc": rng.choice([0, 1]), "args": {}}
+            inv = {"subcommand": "clean", "unused": rng.random() < 0.5, "flags": {"verbose": rng.choice([0, 1])}, "ninja_rc": rng.choice([0, 1, "kill"]), "args": {}}
         invs.append(inv)
     return {"project": p, "invocations": invs}
 
@@ -137,7 +137,8 @@ def judge(chk, sc, steps):
                 if step["cache_hit"] and (inv["args"].get("builders") or inv["args"].get("apps")):
                     nt = True
             if inv.get("ninja_rc", 0) != 0 and ninja_lines and rc == 0:
-                chk.fail_oracle("ninja:rc-swallowed", f"ninja exits {inv['ninja_rc']} but laze exits 0", {"scenario": sc})
+                chk.fail_oracle("ninja:rc-swallowed" + (":killed-by-signal" if inv["ninja_rc"] == "kill" else ""),
+                                f"ninja exits {inv['ninja_rc']} but laze exits 0", {"scenario": sc})
             outs_ = {(b, a): o for b, a, o in step["outs"]}
             nothing = (inv["args"].get("builders") is not None or inv["args"].get("apps") is not None) and \
                 not [o for (b, a), o in outs_.items() if selected(inv["args"], b, a)]
